@@ -27,6 +27,11 @@ arr_count_le_capacity buf_count_le_capacity no_overflow abs_new abs_push abs_cfu
 abs_slice abs_fill abs_concat abs_put_seq abs_putindex abs_trim buf_extra_guard abs_buf_push abs_buf_setcount abs_buf_popn abs_buf_fill
 abs_buf_blit abs_buf_blit_self astep_abs arr_inv_reachable aensure_never_exits flatten_terminates
 no_oob_in no_oob_get no_oob_halfrange no_oob_slice aremove_no_ub aremove_overflow_ub putindex_fills_gap putindex_gap_uninit
+no_oob_push abs_buf_push_u8 abs_buf_push_u32 abs_buf_push_self bpush_self_no_ub bpush_self_overflow_ub abs_buf_push_dispatch
+abs_buf_push_byte abs_buf_push_string abs_buf_push_word abs_buf_push_at pushat_error_truncates abs_buf_put abs_buf_putindex abs_buf_trim
+abs_buf_clear abs_buf_fill_all abs_buf_new_filled abs_buf_from_bytes abs_buf_slice no_oob_blit_decode no_oob_blit_dest abs_buf_blit_full
+no_oob_bitloc abs_buf_bit_set abs_buf_bit_clear abs_buf_bit_toggle abs_buf_bit_get bstep_abs buf_inv_reachable
+abs_new_filled abs_peek abs_clear_seq
 """.split()
 ENV = dict(os.environ, ASAN_OPTIONS="detect_leaks=0:abort_on_error=0:allocator_may_return_null=1", UBSAN_OPTIONS="print_stacktrace=1")
 NT, NS, NA, NB = 4, 2, 3, 3
@@ -397,10 +402,25 @@ class Gen:
                 lens[b] = 0
             elif x < 975:
                 ops.append("bnewfilled B%d %s %s" % (b, r.choice([str(r.range(0, 30)), "-1", "nil"]), r.choice(["", str(r.range(0, 255)), "300", "nil"])))
-            elif x < 990:
+            elif x < 985:
                 ops.append("next B%d %s" % (b, r.choice(["nil", str(r.range(-2, n + 2)), "f0.5"])))
-            else:
+            elif x < 995:
                 ops.append("len B%d" % b)
+            else:
+                ops.append("bfrombytes B%d %s" % (b, " ".join(str(r.range(-300, 600)) if r.chance(9, 10) else r.choice(["nil", "f1.5", "sab", "2147483648"]) for _ in range(r.range(0, 6)))))
+            if r.chance(1, 8):
+                # buffer/bit*: bit index inside, at the boundary (8*count - 1, 8*count), negative, huge, ill-typed
+                y = r.below(100)
+                nb = 8 * max(0, lens[b])
+                if y < 55:
+                    bi = str(r.range(0, max(0, nb + 7)))
+                elif y < 75:
+                    bi = str(r.choice([nb - 1, nb, nb + 7, nb + 8, -1, 0, 7, 8]))
+                elif y < 88:
+                    bi = str(r.choice([2**31 * 8, 2**34 - 1, 2**40, 2**62, -2**40, I32MAX, 8 * I32MAX + 7]))
+                else:
+                    bi = r.choice(["nil", "f1.5", "sabc", "f1e30", ":kw", "f-0.5"])
+                ops.append("%s B%d %s" % (r.choice(["bbitset", "bbitclear", "bbittoggle", "bbit", "bbit"]), b, bi))
         ops = [" ".join(o.split()) for o in ops]
         for o in ops:
             self.note(o.split()[0])
@@ -1070,6 +1090,28 @@ class Oracle:
                     exp = str(i + 1) if i is not None and 0 <= i + 1 < n else "nil"
             elif name == "len":
                 exp = str(n)
+            elif name in ("bbitset", "bbitclear", "bbittoggle", "bbit"):
+                # documented: bit-index into the buffer; anything that is not an index of an existing bit raises
+                try:
+                    iv = int(t[2])
+                except ValueError:
+                    iv = None
+                if iv is None or iv < 0 or (iv >> 3) >= n:
+                    exp = "err"
+                else:
+                    byte, bit = iv >> 3, iv & 7
+                    if name == "bbit":
+                        exp = "true" if (b[byte] >> bit) & 1 else "false"
+                    else:
+                        exp = "ok"
+                        b[byte] = (b[byte] | (1 << bit)) if name == "bbitset" else (b[byte] & ~(1 << bit) & 0xFF) if name == "bbitclear" else (b[byte] ^ (1 << bit))
+            elif name == "bfrombytes":
+                vs = [as_i32(a) for a in t[2:]]
+                if any(v is None for v in vs):
+                    exp = "err"
+                else:
+                    self.B[bi] = [v & 0xFF for v in vs]
+                    exp = "ok"
         if exp is not None and res != exp:
             # a panic in the middle of buffer/push* leaves the bytes pushed so far: the reference did the same
             return "expected %s, implementation answered %s" % (exp, res)
@@ -1099,6 +1141,39 @@ def oracle_history(ops, lines):
 
 
 # ----------------------------------------------------------------------------------------------------------------------
+# direct oracle at the int32 boundary: a 1 GiB buffer pushed onto itself (2 * count > INT32_MAX).  Out of reach of the
+# model driver (2^30 cells); the theorem side is `abs_buf_push_self` / `bpush_self_no_ub` on the regenerated shape flag.
+BOUNDARY_SCRIPT = """(def b (buffer/new-filled 1073741824 1))
+(print (try (do (buffer/push b b) "ok") ([e] (string "err: " e))))
+(print (try (do (buffer/push-string b b) "ok") ([e] (string "err: " e))))
+(print (try (do (buffer/push-at b 1073741824 b) "ok") ([e] (string "err: " e))))
+(print (length b))
+"""
+BOUNDARY_EXPECT = ["err: buffer overflow", "err: buffer overflow", "err: buffer overflow", "1073741824"]
+
+
+def boundary_oracle(ctx, script=BOUNDARY_SCRIPT):
+    """None when the implementation raises "buffer overflow" three times and the buffer is unchanged; else a dict"""
+    try:
+        v = ctx.build.variant("asan")
+    except BuildError as e:
+        return {"kind": "build", "error": str(e)}
+    path = "/var/tmp/c04-boundary-%d.janet" % os.getpid()
+    with open(path, "w") as f:
+        f.write(script)
+    try:
+        rc, out, err = run_cmd([v["janet"], path], timeout=300, env=ENV)
+    finally:
+        os.unlink(path)
+    out = out.decode(errors="replace").splitlines()
+    err = err.decode(errors="replace")
+    if rc == 0 and out == BOUNDARY_EXPECT:
+        return None
+    what = "ubsan" if "runtime error" in err else ("asan" if "AddressSanitizer" in err else ("crash" if rc not in (0, 1) else "wrong"))
+    return {"kind": "janet-script", "script": script, "rc": rc, "stdout": out[:10], "stderr": err[-2500:], "what": what,
+            "expected": BOUNDARY_EXPECT}
+
+
 def ddmin(ops, fails):
     """delta debugging: smallest sub-list of ops (order kept) on which `fails` still holds"""
     n = 2
@@ -1175,6 +1250,13 @@ def run(ctx, only_ops=None):
     if not hx:
         ctx.violation("harness-build", {"kind": "broken-obligation", "broken": broken}, found=False, what="; ".join(broken)[:600])
         return ctx.finish("proof", cov)
+    if only_ops is None:
+        bo = boundary_oracle(ctx)
+        if bo is not None:
+            sig = "crash:bpush:%s" % bo.get("what", "?") if bo.get("what") != "wrong" else "oracle:bpush:boundary"
+            ctx.violation(sig, bo, found=True,
+                          what="a 1 GiB buffer pushed onto itself (buffer/push, push-string, push-at): expected \"buffer overflow\" three times and an unchanged "
+                               "buffer, got rc=%s stdout=%r %s" % (bo.get("rc"), bo.get("stdout"), (bo.get("stderr") or "").strip().splitlines()[:1]))
     keys, _, _ = run_impl(hx, [], per_home=per_home)
     pool = [(int(l.split()[1]), int(l.split()[2])) for l in keys if l.startswith("key ")]
     g = Gen(ctx.rng, pool)
@@ -1317,6 +1399,8 @@ def run(ctx, only_ops=None):
     return ctx.finish("proof", cov, assumptions=[
         "keys abstracted to (id, hash); janet_equals / janet_hash / janet_compare themselves are C03's subject (harness supplies real hashes and compare ranks)",
         "int32 overflow of 2*count+2 in janet_table_put not modelled (needs > 2^29 entries)",
+        "buffer/bit*: a bit index outside int64 is converted by an out-of-range double->int64 cast (x86-64: INT64_MIN, then rejected); modelled as rejected",
+        "buffer/push-word: (uint32_t) of a double outside [0, 2^32) is the x86-64 conversion; modelled as 'word != number -> error'",
     ])
 
 
@@ -1325,4 +1409,9 @@ def replay(ctx, path):
         r = json.load(f)
     ops = r.get("ops") or []
     print(json.dumps({k: v for k, v in r.items() if k != "detail"}, indent=1)[:3000])
+    if r.get("kind") == "janet-script":
+        bo = boundary_oracle(ctx, r["script"])
+        if bo is not None:
+            ctx.violation(r.get("signature", "crash:bpush:replay"), bo, found=True, what="replayed script still fails: rc=%s %r" % (bo.get("rc"), bo.get("stdout")))
+        return ctx.finish("proof", {"evaluations": 1, "distinct_nontrivial": 1, "rule": "replay of one janet script on the asan build", "samples": [r["script"][:200]]})
     return run(ctx, only_ops=ops)
